@@ -41,12 +41,14 @@ c.requires("len32", "len(data) < 2**32")  # the format encodes the payload lengt
 c.let("k0", "len(self.cache_data) // self.eb_size")
 c.let("hdr", "(b'\\xbf' if self.first_slot else b'') + ENC(uri) + b'\\x5a' + be(len(data), 4) + data")
 c.let("qs", "len(hdr) // self.eb_size")
-c.returns("extends", "self.cache_data[:len(old(self.cache_data))] == old(self.cache_data)")
-c.returns("slot", "self.cache_data[len(old(self.cache_data)):][:len(hdr)] == hdr")
+# (heavy=True: byte-level clauses that callers reasoning only about URIs / alignment do not need to assume)
+c.returns("extends", "self.cache_data[:len(old(self.cache_data))] == old(self.cache_data)", heavy=True)
+c.returns("slot", "self.cache_data[len(old(self.cache_data)):][:len(hdr)] == hdr", heavy=True)
 c.returns("slot_padding", "len(self.cache_data) == len(old(self.cache_data)) + len(hdr) "
-                          "or pad_entry_ok(self.cache_data[len(old(self.cache_data)) + len(hdr):])")
+                          "or pad_entry_ok(self.cache_data[len(old(self.cache_data)) + len(hdr):])", heavy=True)
 c.returns("aligned", "len(self.cache_data) % self.eb_size == 0",
           via="len(self.cache_data) == (k0 + (len(self.cache_data) - len(old(self.cache_data))) // self.eb_size) * self.eb_size")
+c.returns("grows", "len(self.cache_data) > len(old(self.cache_data))")
 c.returns("uris", "self.uris == old(self.uris) + [uri]")
 c.returns("not_first", "not self.first_slot and self.eb_size == old(self.eb_size)")
 c.raises("ValueError", when="uri in self.uris", label="duplicate",
